@@ -355,6 +355,23 @@ fn int_texts() -> Vec<(String, bool)> {
     v.into_iter().map(|n| (n.to_string(), n >= i64::MIN as i128 && n <= u64::MAX as i128)).collect()
 }
 
+/// The value grammar of this check (used by C05 for injectivity as well).
+pub fn grammar(thorough: bool) -> Vec<Value> {
+    let l0 = leaves();
+    let keys = key_alphabet();
+    let l1 = composites(&l0, &keys);
+    let r1: Vec<Value> = vec![Value::Null, json!(-1), json!("\""), json!([]), json!({}), json!([0]), json!(["a", "é"]), json!({"a": 0}), json!({"": null, "B": true}), json!({"\u{10000}": 1, "\u{ffff}": 2})];
+    let k2: Vec<String> = vec!["a".into(), "é".into(), "\u{10000}".into(), "\u{ffff}".into()];
+    let mut g = l0;
+    g.extend(l1);
+    g.extend(composites(&r1, &k2));
+    if thorough {
+        let r2: Vec<Value> = vec![json!([[0]]), json!({"a": {"a": 0}}), json!([{"é": [1]}, {"a": {"": null}}]), json!({"\u{ffff}": [{}], "\u{10000}": {"B": []}}), Value::Null, json!(u64::MAX)];
+        g.extend(composites(&r2, &k2));
+    }
+    g
+}
+
 pub fn run(tier: Tier) -> i32 {
     let mut c = Check::new("C10", "exploration", tier);
     c.selftest("structure-checker-accepts-canonical", structure_ok(br#"{"a":[1,-2,"x y"],"b":{"":null}}"#).is_ok(), "");
